@@ -92,12 +92,13 @@ pub fn extern_defs(m: &Module) -> String {
         match elem_for_align(align) {
             Some((elem, a)) if size % a == 0 => {
                 let n = size / a;
+                // full paths: the extern type itself may be named like a predefined type
                 s.push_str(&format!(
-                    "#[derive(Clone, Copy)]\n#[repr(C)]\npub struct {name}(pub [{elem}; {n}]);\nimpl Default for {name} {{ fn default() -> Self {{ {name}([0; {n}]) }} }}\n"
+                    "#[derive(Clone, Copy)]\n#[repr(C)]\npub struct {name}(pub [::core::primitive::{elem}; {n}]);\nimpl Default for {name} {{ fn default() -> Self {{ {name}([0; {n}]) }} }}\n"
                 ));
             }
             _ => s.push_str(&format!(
-                "#[derive(Clone, Copy)]\n#[repr(C, align({align}))]\npub struct {name}(pub [u8; {size}]);\nimpl Default for {name} {{ fn default() -> Self {{ {name}([0u8; {size}]) }} }}\n"
+                "#[derive(Clone, Copy)]\n#[repr(C, align({align}))]\npub struct {name}(pub [::core::primitive::u8; {size}]);\nimpl Default for {name} {{ fn default() -> Self {{ {name}([0u8; {size}]) }} }}\n"
             )),
         }
     }
